@@ -360,6 +360,27 @@ func (pa *provAnalysis) fieldOfValue(v ssa.Value, path string, ctx *provCtx, dep
 			out.add(pa.fieldOfValue(e, path, ctx, depth+1))
 		}
 		return out
+	case *ssa.Parameter:
+		// a struct passed by value: the same field of every call site's argument
+		if _, isStruct := x.Type().Underlying().(*types.Struct); isStruct {
+			fn := x.Parent()
+			idx := -1
+			for i, p := range fn.Params {
+				if p == x {
+					idx = i
+				}
+			}
+			sites := pa.callSites(fn)
+			if idx >= 0 && len(sites) > 0 {
+				out := provSet{}
+				for _, cs := range sites {
+					if idx < len(cs.Common().Args) {
+						out.add(pa.fieldOfValue(cs.Common().Args[idx], path, nil, depth+1))
+					}
+				}
+				return out
+			}
+		}
 	}
 	return pa.of(v, ctx)
 }
